@@ -26,8 +26,6 @@ import (
 	"encoding/binary"
 	"encoding/hex"
 	"fmt"
-	"os"
-	"runtime/pprof"
 	"strings"
 	"time"
 
@@ -37,14 +35,7 @@ import (
 	"verifharness/vmlib"
 )
 
-func main() {
-	if os.Getenv("C07_PROF") != "" {
-		f, _ := os.Create(os.Getenv("C07_PROF"))
-		pprof.StartCPUProfile(f)
-		defer pprof.StopCPUProfile()
-	}
-	Main("C07", run, nil)
-}
+func main() { Main("C07", run, nil) }
 
 // ---------------------------------------------------------------- assembler
 
@@ -54,9 +45,9 @@ type ins struct {
 	delta int // added to the target offset (1 = into the middle of the instruction)
 }
 
-func raw(bs ...byte) ins    { return ins{b: bs, jmp: -1} }
-func push(d []byte) ins     { return ins{b: vm.PushDataBytes(d), jmp: -1} }
-func pushInt(n uint64) ins  { return ins{b: vm.PushDataUint64(n), jmp: -1} }
+func raw(bs ...byte) ins       { return ins{b: bs, jmp: -1} }
+func push(d []byte) ins        { return ins{b: vm.PushDataBytes(d), jmp: -1} }
+func pushInt(n uint64) ins     { return ins{b: vm.PushDataUint64(n), jmp: -1} }
 func jump(op byte, to int) ins { return ins{b: []byte{op, 0, 0, 0, 0}, jmp: to} }
 func jumpRaw(op byte, t uint32) ins {
 	b := []byte{op, 0, 0, 0, 0}
@@ -512,7 +503,7 @@ func isZeroNum(b []byte) bool {
 
 func run(c *Ctx) error {
 	r := c.Rng
-	n := c.N(700, 7000)
+	n := c.N(500, 3000)
 	knownReported := 0
 	hung := false
 	for idx := 0; idx < n && !hung; idx++ {
@@ -701,18 +692,7 @@ func run(c *Ctx) error {
 					known = false
 				}
 			}
-			if j < len(segs) { // the step succeeded
-				switch s.name {
-				case "TOALTSTACK":
-					if len(before) > 0 {
-						alt = append(alt, before[0])
-					}
-				case "FROMALTSTACK":
-					if len(alt) > 0 {
-						alt = alt[:len(alt)-1]
-					}
-				}
-			} else if errc == "" || errc == "EFalseVMResult" {
+			if j < len(segs) || errc == "" || errc == "EFalseVMResult" { // the step succeeded
 				switch s.name {
 				case "TOALTSTACK":
 					if len(before) > 0 {
